@@ -325,6 +325,57 @@ def run_model_streams(run, drv):
                     run.oracle_ok("make_memmap_merge")
             else:
                 run.oracle_fail("make_memmap_merge", {"tree": tsx, "key": key}, impl[1], "make:raise")
+            # refresh: a reader maps the directory; through another mapping make_memmap creates an entry at the root or inside a
+            # nested node the reader already holds and fills it; the reader after load_memmap_ / memmap_refresh_ vs `loadInto`
+            if it % 2 == 1:
+                def nodes_of(sp, path=()):
+                    out = [path]
+                    for kk, vv in sp:
+                        if vv[0] == "n":
+                            out += nodes_of(vv[1], path + (kk,))
+                    return out
+                rdir = root / f"r{it}"
+                run.case(("refresh", it))
+                try:
+                    with time_limit(180):
+                        wtd = build(spec, b, device).memmap_(rdir)
+                        reader = TensorDict.load_memmap(rdir).memmap_()
+                        where = rng.choice(nodes_of(spec))
+                        rkey = "fresh"
+                        rdt = rng.choice([torch.int32, torch.uint8, torch.float64])
+                        rshape = b + rng.choice([[], [2]])
+                        newt = mk_tensor(None, rdt, rshape, 5 + it % 7)
+                        target = wtd
+                        for kk in where:
+                            target = target[kk]
+                        if rkey in target.keys():
+                            raise KeyError("skip")
+                        wtd.make_memmap(where + (rkey,), shape=torch.Size(rshape), dtype=rdt).copy_(newt)
+                        if it % 4 == 1:
+                            reader.memmap_refresh_()
+                        else:
+                            reader.load_memmap_(rdir)
+                        impl = [sort_tree(tree_of(TensorDict.load_memmap(rdir))), sort_tree(tree_of(reader))]
+                        writer_view = sort_tree(tree_of(wtd))
+                    mrf = parse_sx(drv.ask(sx("c10.refresh", Raw(tsx), list(where), rkey, str(rdt), rshape, bits(newt))))
+                    model = [sort_tree(model_tree(mrf[0])), sort_tree(model_tree(mrf[1]))] if mrf != "none" else ["none"]
+                    rcase = {"tree": tsx, "dir": list(where), "dtype": str(rdt), "shape": rshape}
+                    run.corr("refresh(fresh load, reader after load_memmap_)", rcase, impl, model)
+                    if impl[0] == impl[1] == writer_view:
+                        run.oracle_ok("refresh_equals_load")
+                    elif impl[0] != writer_view:
+                        run.oracle_fail("refresh_equals_load", rcase, "after the reader's refresh a fresh load of the directory differs from the tensordict that created the entry: "
+                                        f"{first_diff(writer_view, impl[0])}", f"refresh-later-load:{'nested' if where else 'root'}")
+                    else:
+                        run.oracle_fail("refresh_equals_load", rcase, f"after the refresh the reader differs from a fresh load of the directory: {first_diff(impl[0], impl[1])}",
+                                        f"refresh:{'nested' if where else 'root'}")
+                except KeyError:
+                    pass
+                except TimeoutError as e:
+                    raise Infra(f"refresh timed out: {e}")
+                except Exception as e:  # noqa: BLE001
+                    run.oracle_fail("refresh_equals_load", {"tree": tsx}, f"refresh history raised {type(e).__name__}: {str(e)[:150]}", "refresh:raise")
+                shutil.rmtree(rdir, ignore_errors=True)
             # write through: a root leaf with elements, written in place through `saved`, read through `other` and a fresh load
             cands = [k for k, v in spec if v[0] == "l" and torch.Size(v[2]).numel() > 0]
             if cands:
@@ -362,24 +413,70 @@ def run_model_streams(run, drv):
                 run.case(("resave", it))
                 try:
                     with time_limit(180):
-                        td1.memmap(d, num_threads=rng.choice([0, 2]))
-                        build(spec, b, device).memmap(d, num_threads=rng.choice([0, 2]))
+                        nts = [rng.choice([0, 2]), rng.choice([0, 2])]
+                        td1.memmap(d, num_threads=nts[0])
+                        build(spec, b, device).memmap(d, num_threads=nts[1])
                         impl = ["ok", sorted(x[0] for x in listing(d)), sort_tree(tree_of(TensorDict.load_memmap(d)))]
                 except TimeoutError as e:
                     raise Infra(f"memmap timed out: {e}")
                 except Exception as e:  # noqa: BLE001
                     impl = ["err", f"{type(e).__name__}: {str(e)[:150]}"]
-                mr = parse_sx(drv.ask(f"(c10.resave {td_sx(td1)} {tsx})"))
-                model = ["ok", sorted(pstr(p) for p in mr[0]), sort_tree(model_tree(mr[1]))]
-                run.corr("resave(existing directory)", {"first": td_sx(td1)[:400], "second": tsx[:400]}, impl, model)
-                if impl[0] == "ok" and impl[2] == ref:
-                    run.oracle_ok("load_equals_saved(existing dir)")
-                else:
-                    run.oracle_fail("load_equals_saved(existing dir)", {"first": td_sx(td1)[:400], "second": tsx[:400]},
-                                    "after saving over an earlier save, the loaded tensordict differs from the one saved" if impl[0] == "ok" else impl[1], "resave")
+                t1sx = td_sx(td1)
+                check_resave(run, drv, {"first": t1sx[:400], "second": tsx[:400], "first_full": t1sx, "second_full": tsx, "num_threads": nts}, td1, td, ref, impl, "resave(existing directory)")
                 shutil.rmtree(d, ignore_errors=True)
     finally:
         shutil.rmtree(root, ignore_errors=True)
+
+
+def fs_paths(td, prefix=()):
+    """(files, directories) a save of `td` needs, as path tuples: a leaf is the file `<key>.memmap`, every collection
+    (sub-tensordict, lazy stack and its members, NonTensorData, tensorclass) a directory with a `meta.json`"""
+    from tensordict import LazyStackedTensorDict, TensorDictBase, is_tensor_collection
+    files, dirs = {prefix + ("meta.json",)}, {prefix}
+    if isinstance(td, LazyStackedTensorDict):
+        for i, m in enumerate(td.tensordicts):
+            f, d_ = fs_paths(m, prefix + (str(i),))
+            files |= f
+            dirs |= d_
+        return files, dirs
+    if not isinstance(td, TensorDictBase):
+        return files, dirs
+    for k, v in td.items():
+        if is_tensor_collection(v):
+            f, d_ = fs_paths(v, prefix + (k,))
+            files |= f
+            dirs |= d_
+        elif v.numel():
+            files.add(prefix + (k + ".memmap",))
+    return files, dirs
+
+
+def dir_conflict(first, second):
+    """the second save needs a directory where the first left a file, or a file where it left a directory: outside the
+    file-system model (its cells are independent); the save must then fail loudly whatever the number of threads"""
+    f1, d1 = fs_paths(first)
+    f2, d2 = fs_paths(second)
+    return bool((f1 & d2) | (d1 & f2))
+
+
+def check_resave(run, drv, case, first, second, ref, impl, stream):
+    if dir_conflict(first, second):
+        run.count("resave.file_vs_directory_conflict", 1)
+        if impl[0] == "err" or impl[2] == ref:
+            run.oracle_ok("resave_conflict_is_loud")
+        else:
+            run.oracle_fail("resave_conflict_is_loud", case, "a save that needs a directory where a former save left a file (or the converse) returned normally "
+                            "and the directory does not hold the tensordict saved", "resave-conflict-silent")
+        return
+    mr = parse_sx(drv.ask(f"(c10.resave {case['first_full']} {case['second_full']})"))
+    model = ["ok", sorted(pstr(p) for p in mr[0]), sort_tree(model_tree(mr[1]))]
+    shown = case
+    run.corr(stream, shown, impl, model)
+    if impl[0] == "ok" and impl[2] == ref:
+        run.oracle_ok("load_equals_saved(existing dir)")
+    else:
+        run.oracle_fail("load_equals_saved(existing dir)", shown,
+                        "after saving over an earlier save, the loaded tensordict differs from the one saved" if impl[0] == "ok" else impl[1], "resave")
 
 
 def td_from_tree(t):
@@ -415,23 +512,21 @@ def replay_saves(run, drv, cases, stream="save+load(replay)"):
                 n += 1
                 d = root / f"rr{ci}"
                 run.case(("resave-replay", ci))
+                c = dict(c, first=c.get("first_full", c["first"]), second=c.get("second_full", c["second"]))
                 t1, t2 = td_from_tree(parse_sx(c["first"])), td_from_tree(parse_sx(c["second"]))
                 ref = sort_tree(tree_of(t2))
                 try:
                     with time_limit(180):
-                        t1.memmap(d)
-                        t2.memmap(d)
+                        nts = c.get("num_threads", [0, 0])
+                        t1.memmap(d, num_threads=nts[0])
+                        t2.memmap(d, num_threads=nts[1])
                         impl = ["ok", sorted(x[0] for x in listing(d)), sort_tree(tree_of(TensorDict.load_memmap(d)))]
                 except TimeoutError as e:
                     raise Infra(f"memmap timed out: {e}")
                 except Exception as e:  # noqa: BLE001
                     impl = ["err", f"{type(e).__name__}: {str(e)[:150]}"]
-                mr = parse_sx(drv.ask(f"(c10.resave {c['first']} {c['second']})"))
-                run.corr("resave(" + ("corpus" if "corpus" in stream else "replay") + ")", c, impl, ["ok", sorted(pstr(p) for p in mr[0]), sort_tree(model_tree(mr[1]))])
-                if impl[0] == "ok" and impl[2] == ref:
-                    run.oracle_ok("load_equals_saved(existing dir)")
-                else:
-                    run.oracle_fail("load_equals_saved(existing dir)", c, "after saving over an earlier save, the loaded tensordict differs from the one saved" if impl[0] == "ok" else impl[1], "resave")
+                check_resave(run, drv, {"first": c["first"], "second": c["second"], "first_full": c["first"], "second_full": c["second"], "num_threads": c.get("num_threads", [0, 0])}, t1, t2, ref, impl,
+                             "resave(" + ("corpus" if "corpus" in stream else "replay") + ")")
                 shutil.rmtree(d, ignore_errors=True)
                 continue
             if not (isinstance(c, dict) and isinstance(c.get("tree"), str) and c["tree"].startswith(("(n ", "(lz "))):
